@@ -39,4 +39,46 @@ CHECKS = {
   "design_ref": "DESIGN.md section 3 C04",
   "note": "integer arithmetic is exact; translations snapped to k/24 within 2e-6; ITA number ranges for crystal system / Laue class are harness knowledge; standard settings only",
  },
+ "C09": {
+  "technique": "runtime contracts on the four omega solvers and tth/tth2 (both modules): every returned (omega, eta) substituted into the documented rotation; solution count from the quadratic's discriminant built in the harness",
+  "text": "Each returned omega must lie in (-pi,pi] and rotate g (scaled to sin theta) so that x=-sin^2(theta) (1e-9 sin theta) and (y,z) match eta (1e-8 sin theta) under Rz / Rx(chi)Ry(wedge)Rz / P Rz P' / Ry(-wedge)Rz; the number of solutions must be 2 or 0 according to the sign of the discriminant (|d| > 1e-6 (a^2+b^2)); solvers must agree where tilts coincide; tth = 2 asin(lambda sintl) = tth2(U.B.hkl). Strata: tilts {both 0, one, both}, directions {sphere, near axis, next to tangency, equatorial}. Reported the find_omega_general defect of the pinned tree (repaired by a fix: commit). Held on K sampled inputs.",
+  "design_ref": "DESIGN.md section 3 C09, section 4 row 7",
+  "note": _TB,
+ },
+ "C10": {
+  "technique": "runtime contracts on det_coor/det_coor2/det_v/detector_to_lab vs a ray/plane intersection written in the harness + workload relations (det_coor = det_coor2, back-mapped point on the ray and in the detector plane)",
+  "text": "Every call is re-derived geometrically: pixel = intersection of the ray t+s.v with the tilted detector plane, lab point = (L,0,0)+R(0,py(y-y0),pz(z-z0)); the workload additionally requires det_coor=det_coor2 (1e-9) and that detector_to_lab of that pixel lies on the ray with s>0. Strata over single-axis tilts, zero/axial/generic grain offsets, independent pixel sizes. Held on K sampled geometries.",
+  "design_ref": "DESIGN.md section 3 C10",
+  "note": _TB,
+ },
+ "C11": {
+  "technique": "exhaustive enumeration at run time (81 matrices x 6 functions; 8 orientations x 64 small shapes x every uniquely labelled pixel) + random large non-square shapes and eta/radius round trips; post-conditions on the real functions (result is a rearrangement; pixel map stays inside the detector)",
+  "text": "The finite part of the quantifier is enumerated completely on every run: acceptance/rejection of all 81 matrices, exact flip/inverse identity for both image functions, xy_to_detyz(x,y) equal to the index where trans_orientation stores img[x,y], and both compositions of the pixel maps equal to the identity for every pixel of every shape 1..8 x 1..8; large shapes (to 4096x3000) and real coordinates are sampled. Reported the detyz_to_xy defect of the pinned tree (repaired by a fix: commit).",
+  "design_ref": "DESIGN.md section 3 C11, section 4 row 8",
+  "note": "exact integer comparison for images and indices; trusted: numpy flips/transpose; sampled part for large shapes",
+ },
+ "C12": {
+  "technique": "group invariants on the arrays returned by permutations()/rotations()/ROTATIONS (exhaustive over 7 systems and all operator pairs) + post-condition on every Umis call + metamorphic invariances of the angle multiset",
+  "text": "Orders 1,2,4,8,6,12,24, integrality/det +1, orthonormality, closure over all ordered pairs, rot[i].B.perm[i]=B on 20 conforming cells per system with B from the harness and from tools.form_b_mat, ROTATIONS equal to rotations(); every Umis result is checked (index column, finite angles in [0,180], cosine of the angle of U1'U2 rot[k]' to 1e-9) and the sorted cosine multiset must be invariant under symmetry-equivalent replacement of either argument, a common rotation and a swap, incl. half-turn products where the clip matters.",
+  "design_ref": "DESIGN.md section 3 C12",
+  "note": _TB,
+ },
+ "C16": {
+  "technique": "invariant on the live atomlib.formfactor table (exhaustive, through the real FormFactor on a 20001-point grid) + post-condition on every FormFactor call",
+  "text": "All entries: nine finite numbers, |f(0)-Z| <= 0.1 with Z from a periodic-table list in the harness, f>0 and non-increasing on [0,2] (analytically when all a_i b_i >= 0, else grid + derivative sign), scalar and array evaluation agree; every FormFactor call is recomputed from the live table to 1e-12. Reported that 83 of 94 entries violated f(0)=Z on the pinned tree (repaired by a data-only fix: commit).",
+  "design_ref": "DESIGN.md section 3 C16, section 4 row 11",
+  "note": "atomic numbers and the 0.1 e tolerance are harness knowledge; the analytic fit itself (ITC C 6.1.1.4) is trusted to be a fit of f",
+ },
+ "C19": {
+  "technique": "history + executable model: random API call sequences against a 40-line dictionary model, full observable state compared after every step; save/load through real files",
+  "text": "After every step of sequences of addpar/set/set_parameters/set_varylist/set_variable_values/update_other/update_yourself/save/load (same object, fresh object, hand-written files with numeric-looking strings, hyphenated names, malformed lines) get, get_parameters, varylist, get_variable_values and get_variable_list must equal the model; floats compared by bit pattern, ints/strings by type and value; save->load into a fresh object must reproduce the mapping. Held on K sampled histories of length <= 30.",
+  "design_ref": "DESIGN.md section 3 C19",
+  "note": "the model encodes the documented coercion; ints beyond 10^300 and strings with blanks are outside the generator; name collisions a-b / a_b are not judged",
+ },
+ "C20": {
+  "technique": "history monitor over switch assignments interleaved with guarded calls; wrappers on the three checks._check_* functions observe invocations directly; last-valid-value model of the switch; python -O sub-run",
+  "text": "For random histories the switch must follow the model (invalid values raise ValueError and change nothing); while on, every constructed-invalid input (defect >= 1e-3, reflection, Euler angle outside by >= 1e-3, left-handed UBI, det<0) must raise ValueError from a check and every valid input (exact, float32-rounded, perturbed < 1e-7, end-point angles) must be accepted; while off no _check_* function may be invoked and valid inputs must return bit-identical results. Reported the float32 rejection of the pinned tree (repaired by a fix: commit).",
+  "design_ref": "DESIGN.md section 3 C20, section 4 row 14",
+  "note": "inputs between 1e-7 and 1e-3 are deliberately not generated (don't-care band of the property)",
+ },
 }
